@@ -461,6 +461,29 @@ func Copy(c *Ctx) error {
 					}
 				}
 			}
+			// wildcard sources written with a character class or '?' instead of '*' (sampled apart from the
+			// block above, so that its sample stays what it was)
+			{
+				more := []shape{{"[xy]", "/", false, true}, {"[x]", "x", false, true}, {"?", "fresh", false, true}, {"x/[xy]", "/", false, true}, {"x/[y]*", "x", false, true}, {"[^y]", "/", true, true}}
+				m := 0
+				for si, s := range srcs {
+					for di, d := range dsts {
+						for hi, sh := range more {
+							for _, rep := range []bool{false, true} {
+								m++
+								n++
+								if !c.Thorough() && (si*5+di*3+hi+m)%7 != 0 {
+									continue
+								}
+								cc := def
+								cc.Kind, cc.Src, cc.Dst, cc.SrcArg, cc.DstArg, cc.Contents, cc.Wild, cc.Replace = "overlay", s, d, sh.src, sh.dst, sh.contents, sh.wild, rep
+								cc.Origin = fmt.Sprintf("universe/classShape%d", hi)
+								cases = append(cases, cc)
+							}
+						}
+					}
+				}
+			}
 			// hard links on either side of a file-over-file collision
 			{
 				f := func(p string, seed int64, group int) model.Entry {
